@@ -168,7 +168,15 @@ def gen_item(rng, depth, sure, frozen, last_def, prev_items, path=()):
                 if it[0] in ("p", "i") or (it[0] == "n" and any(p[1] == "const" for p in it[4])):
                     frozen.update(NAMES)
                     sure.clear()
-    return ["b", pfx, cl, els, rng.random() < 0.35]
+    blk = ["b", pfx, cl, els, rng.random() < 0.35]
+    if blk[4] and rng.random() < 0.3:
+        # lines after the explicit @end, indented deeper than it: outside the block, named under its parent
+        blk.append([gen_extra(rng), gen_items(rng, min(depth - 1, 1), n=rng.choice([1, 1, 2]), path=ipath,
+                                              sure=inner_sure, frozen=set(inner_frozen))])
+        if not pfx:
+            frozen.update(NAMES)
+            sure.clear()
+    return blk
 
 
 def conditions(items):
@@ -183,6 +191,8 @@ def conditions(items):
                 out += conditions(cl[2])
             if it[3] is not None:
                 out += conditions(it[3][1])
+            if len(it) > 5:
+                out += conditions(it[5][1])
     return out
 
 
@@ -212,7 +222,44 @@ def features(items, depth=0):
                     unsel = True
                 a, b, cc, d, e = features(body, depth + 1)
                 nest, byind, unsel, compact, propafter = max(nest, a), byind or b, unsel or cc, compact or d, propafter or e
+            if len(it) > 5:
+                a, b, cc, d, e = features(it[5][1], depth)
+                nest, byind, unsel, compact, propafter = max(nest, a), byind or b, unsel or cc, compact or d, propafter or e
     return nest, byind, unsel, compact, propafter
+
+
+def has_mods(items):
+    for it in items:
+        if it[0] == "n" and it[2]:
+            return True
+        if it[0] == "g" and has_mods(it[3]):
+            return True
+        if it[0] == "b" and (any(has_mods(c[2]) for c in it[2]) or (it[3] is not None and has_mods(it[3][1]))
+                             or (len(it) > 5 and has_mods(it[5][1]))):
+            return True
+    return False
+
+
+def top_first_clauses(items):
+    """For every rendered line at indent 0 in order: None, or the truth value c of the first clause of a
+    top-level block that this line is."""
+    out = []
+    for i, it in enumerate(items):
+        if it[0] != "b":
+            out.append(None)
+            continue
+        nxt = items[i + 1] if i + 1 < len(items) else None
+        forced = nxt is not None and nxt[0] == "b" and nxt[1] == it[1]
+        out.append(it[2][0][0])
+        out += [None] * (len(it[2]) - 1 + (1 if it[3] is not None else 0) + (1 if (it[4] or forced) else 0))
+    return out
+
+
+def pad_text(text, n):
+    """The same code as a snippet: every line indented by the same amount, empty lines around it."""
+    pad = " " * (2 * (n % 3))
+    body = "\n".join(pad + l if l.strip() else l for l in text.split("\n"))
+    return "\n" * (n % 2 + 1) + body + "\n" * (n % 3) + ("   \n" if n % 2 else "")
 
 
 def case_contexts(items, ok=True, out=None):
@@ -230,6 +277,8 @@ def case_contexts(items, ok=True, out=None):
                 case_contexts(body, ok and sel, out)
             if it[3] is not None:
                 case_contexts(it[3][1], ok and not taken, out)
+            if len(it) > 5:
+                case_contexts(it[5][1], ok, out)
     return out
 
 
@@ -244,14 +293,37 @@ def canon_value(v):
     return v
 
 
-def impl_run(text):
-    """[[name, value, constant, tags], …] in env.nodes order, or 'err'; plus branching counters."""
+SCRATCH = []
+
+
+def scratch_dir():
+    """Per-run scratch directory (removed at exit) for texts that are fed through DIP.add_file."""
+    if not SCRATCH:
+        import atexit
+        import shutil
+        import tempfile
+        d = tempfile.mkdtemp(prefix="verif_c15_")
+        atexit.register(shutil.rmtree, d, True)
+        SCRATCH.append(d)
+    return SCRATCH[0]
+
+
+def impl_run(text, via=None):
+    """[[name, value, constant, tags], …] in env.nodes order, or 'err'; plus branching counters.
+    via='file': the text is written to a scratch file and loaded with DIP.add_file."""
     from scinumtools.dip import DIP
     with warnings.catch_warnings():
         warnings.simplefilter("ignore")
         try:
             with DIP() as p:
-                p.add_string(text)
+                if via == "file":
+                    import os
+                    path = os.path.join(scratch_dir(), "code.dip")
+                    with open(path, "w") as f:
+                        f.write(text)
+                    p.add_file(path)
+                else:
+                    p.add_string(text)
                 env = p.parse()
             data = []
             for n in env.nodes:
@@ -268,7 +340,7 @@ def impl_run(text):
             return "err", None
 
 
-def to_text(lines, rng=None, deco=None, ctxs=None):
+def to_text(lines, rng=None, deco=None, ctxs=None, firsts=None):
     """DIP text of the rendered lines. `deco`: None | 'blank' | 'expr' | 'undef' | 'ref' (harness-level decorations).
     'undef': every @case line lying inside an unselected clause (`ctxs`, see case_contexts) gets a condition
     that cannot be evaluated (it refers to a node that does not exist) — it must not be evaluated."""
@@ -278,7 +350,17 @@ def to_text(lines, rng=None, deco=None, ctxs=None):
         out.append("zt int = 1")
     if deco == "ref":
         out += ["zt bool = true", "zf bool = false"]
+    if deco == "dyn":
+        out.append("zc int = 0")
+    ntop = 0
     for ind, txt in lines:
+        if deco == "dyn" and firsts is not None and ind == 0:
+            c = firsts[ntop] if ntop < len(firsts) else None
+            ntop += 1
+            if c is not None and "@case " in txt:
+                # the same condition text for every top-level block; the node it refers to is modified in between
+                out.append("zc = %d" % (1 if c else 0))
+                txt = txt[:txt.index("@case ")] + '@case ("{?zc} == 1")'
         if deco == "expr" and "@case " in txt:
             head = txt[:txt.index("@case ")]
             txt = head + '@case ("{?zt} == %d")' % (1 if txt.endswith("true") else 0)
@@ -337,6 +419,11 @@ def reductions(items):
                 yield items[:i] + [["g", it[1], it[2], sub]] + items[i + 1:]
             if it[2]:
                 yield items[:i] + [["g", it[1], 0, it[3]]] + items[i + 1:]
+        elif it[0] == "b" and len(it) > 5:
+            yield items[:i] + [it[:5]] + items[i + 1:]
+            for sub in reductions(it[5][1]):
+                if sub:
+                    yield items[:i] + [it[:5] + [[it[5][0], sub]]] + items[i + 1:]
         elif it[0] == "b":
             pfx, cl, els, ee = it[1], it[2], it[3], it[4]
             if len(cl) > 1:
@@ -388,11 +475,22 @@ def judge_ast(ctx, items, r, deco, rng_for_deco, tag):
         return
     r = r["ok"]
     ctxs = case_contexts(items) if deco in ("undef", "ref") else None
-    text = to_text(r["lines"], rng_for_deco, deco, ctxs)
+    firsts = top_first_clauses(items) if deco == "dyn" else None
+    text = to_text(r["lines"], rng_for_deco, deco, ctxs, firsts)
     if ctxs is not None:
         ctx.count("ast.conditions_not_evaluable_inside_unselected_clauses", sum(1 for c in ctxs if not c))
-    imp, st = impl_run(text)
+    if deco in ("pad", "file"):
+        text = pad_text(text, len(r["lines"]))
+    imp, st = impl_run(text, "file" if deco == "file" else None)
     spec, model = r["spec"], r["model"]
+    if deco == "dyn" and imp != "err":
+        vals = [c for c in firsts if c is not None]
+        want = ["zc", (1 if vals[-1] else 0) if vals else 0, False, []]
+        if imp[:1] != [want]:
+            imp = "zc-wrong:%s" % (imp[:1],)
+        else:
+            imp = imp[1:]
+        ctx.count("ast.same_condition_text_reevaluated", max(0, len(vals) - 1))
     if deco == "expr" and imp != "err":
         if imp[:1] != [["zt", 1, False, []]]:
             imp = "zt-missing"
@@ -413,6 +511,8 @@ def judge_ast(ctx, items, r, deco, rng_for_deco, tag):
                       (compact, "block_directly_after_block_of_other_parent"), (propafter, "property_line_directly_after_block")):
         if flag:
             ctx.count("ast." + key)
+    if '], true, [' in json.dumps(items):
+        ctx.count("ast.lines_after_end_deeper_than_it")
     if deco:
         ctx.count("ast.deco." + deco)
     if imp == "err":
@@ -463,15 +563,21 @@ def ast_stream(ctx, n_shapes, max_depth, exhaustive_cap, corpus_items):
                 deco = None
                 if len(conds) >= 2 and q < 0.2:
                     deco = "undef"
-                elif len(conds) >= 2 and q < 0.45 and '["p",' not in json.dumps(items):
+                elif len(conds) >= 2 and q < 0.4 and '["p",' not in json.dumps(items):
                     deco = "ref"
+                elif q < 0.55 and '["p",' not in json.dumps(items):
+                    deco = "dyn"
+                elif q < 0.65:
+                    deco = "pad" if has_mods(items) else "file"
                 batch.append((json.loads(json.dumps(items)), deco, "exhaustive"))
         else:
             for _ in range(3):
                 for cl in conds:
                     cl[0] = rng.random() < 0.45
-                deco = rng.choice([None, None, "undef", "blank", "expr", "ref", "ref"])
-                if deco in ("expr", "ref") and '["p",' in json.dumps(items):
+                deco = rng.choice([None, "undef", "blank", "expr", "ref", "ref", "dyn", "dyn", "pad", "file", "file"])
+                if deco == "file" and has_mods(items):
+                    deco = "pad"       # from a file, modifying an undefined node does not raise (other property)
+                if deco in ("expr", "ref", "dyn") and '["p",' in json.dumps(items):
                     deco = "blank"     # a lone property line could attach to the helper node `zt`
                 batch.append((json.loads(json.dumps(items)), deco, "random"))
     ctx.extra["exhaustive_part"] = "%d tree shapes with <=6 conditions under all truth assignments" % n_exh
@@ -836,9 +942,14 @@ def replay(ctx: Ctx, payload):
         bad = (r["misplaced"] and imp != "err")
     else:
         r = ctx.driver.ask({"p": "C15", "k": "ast", "items": rp["items"]})["ok"]
-        deco = rp.get("deco") if rp.get("deco") in ("expr", "undef", "ref") else None
-        text = to_text(r["lines"], None, deco, case_contexts(rp["items"]) if deco in ("undef", "ref") else None)
-        imp, _ = impl_run(text)
+        deco = rp.get("deco") if rp.get("deco") in ("expr", "undef", "ref", "dyn", "pad", "file") else None
+        text = to_text(r["lines"], None, deco, case_contexts(rp["items"]) if deco in ("undef", "ref") else None,
+                       top_first_clauses(rp["items"]) if deco == "dyn" else None)
+        if deco in ("pad", "file"):
+            text = pad_text(text, len(r["lines"]))
+        imp, _ = impl_run(text, "file" if deco == "file" else None)
+        if deco == "dyn" and imp != "err":
+            imp = imp[1:]
         if deco == "expr" and imp != "err":
             imp = imp[1:]
         if deco == "ref" and imp != "err":
